@@ -140,3 +140,96 @@ Proof.
   inversion E as [E1]. apply (f_equal N.of_uint) in E1. rewrite !DecimalN.Unsigned.of_to in E1.
   apply (f_equal Z.of_N) in E1. rewrite !Z2N.id in E1 by lia. exact E1.
 Qed.
+
+(* ---------- uniqueness of keys is preserved by the map operations ---------- *)
+Section Unique.
+  Context {A : Type} (key : A -> string).
+
+  Lemma sfind_none_notin k l : sfind key k l = None -> ~ In k (map key l).
+  Proof.
+    induction l as [|x r IH]; cbn; [tauto|]. destruct (String.eqb k (key x)) eqn:E; [discriminate|].
+    intros H [C|C]; [subst; rewrite String.eqb_refl in E; discriminate | exact (IH H C)].
+  Qed.
+
+  Lemma map_key_sreplace v l : map key (sreplace key v l) = map key l.
+  Proof.
+    induction l as [|x r IH]; cbn; [reflexivity|].
+    destruct (String.eqb (key v) (key x)) eqn:E; cbn; [apply String.eqb_eq in E; rewrite E; reflexivity | rewrite IH; reflexivity].
+  Qed.
+
+  Lemma in_map_key_sins v l k : In k (map key (sins_sorted key v l)) -> k = key v \/ In k (map key l).
+  Proof.
+    induction l as [|x r IH]; cbn; [intros H; destruct H as [H|H]; [left; auto | destruct H]|].
+    destruct (String.ltb (key v) (key x)); cbn; intros [H|H]; auto. destruct (IH H); auto.
+  Qed.
+
+  Lemma NoDup_sins v l : ~ In (key v) (map key l) -> NoDup (map key l) -> NoDup (map key (sins_sorted key v l)).
+  Proof.
+    induction l as [|x r IH]; cbn; intros Hn Hd.
+    - constructor; [tauto | constructor].
+    - destruct (String.ltb (key v) (key x)); cbn.
+      + constructor; [exact Hn | exact Hd].
+      + inversion Hd as [|y ys Hx Hr]; subst. constructor.
+        * intros C. apply in_map_key_sins in C. destruct C as [C|C]; [apply Hn; left; auto | exact (Hx C)].
+        * apply IH; [intros C; apply Hn; right; exact C | exact Hr].
+  Qed.
+
+  Lemma NoDup_sinsert v l : NoDup (map key l) -> NoDup (map key (sinsert key v l)).
+  Proof.
+    intros Hd. unfold sinsert. destruct (sfind key (key v) l) eqn:E.
+    - rewrite map_key_sreplace. exact Hd.
+    - apply NoDup_sins; [apply sfind_none_notin; exact E | exact Hd].
+  Qed.
+
+  Lemma in_map_key_sremove k l x : In x (map key (sremove key k l)) -> In x (map key l).
+  Proof.
+    induction l as [|y r IH]; cbn; [tauto|]. destruct (String.eqb k (key y)); cbn; [auto|]. intros [H|H]; auto.
+  Qed.
+
+  Lemma NoDup_sremove k l : NoDup (map key l) -> NoDup (map key (sremove key k l)).
+  Proof.
+    induction l as [|y r IH]; cbn; intros Hd; [constructor|].
+    inversion Hd as [|z zs Hy Hr]; subst. destruct (String.eqb k (key y)); cbn; [exact Hr|].
+    constructor; [intros C; apply Hy; eapply in_map_key_sremove; eauto | apply IH; exact Hr].
+  Qed.
+
+  Lemma NoDup_in_sfind x l : NoDup (map key l) -> In x l -> sfind key (key x) l = Some x.
+  Proof.
+    induction l as [|y r IH]; cbn; intros Hd Hin; [destruct Hin|]. destruct Hin as [->|Hin].
+    - rewrite String.eqb_refl. reflexivity.
+    - inversion Hd as [|z zs Hy Hr]; subst.
+      destruct (String.eqb (key x) (key y)) eqn:E.
+      + apply String.eqb_eq in E. exfalso. apply Hy. rewrite <- E. apply in_map. exact Hin.
+      + apply IH; assumption.
+  Qed.
+
+  Lemma in_sremove_other k l x : In x l -> key x <> k -> In x (sremove key k l).
+  Proof.
+    induction l as [|y r IH]; cbn; [tauto|]. intros Hin Hne. destruct Hin as [->|Hin].
+    - destruct (String.eqb k (key x)) eqn:E; [apply String.eqb_eq in E; congruence | left; reflexivity].
+    - destruct (String.eqb k (key y)); [exact Hin | right; apply IH; assumption].
+  Qed.
+
+  Lemma in_sinsert_self v l : In v (sinsert key v l).
+  Proof.
+    unfold sinsert. destruct (sfind key (key v) l) eqn:E.
+    - induction l as [|x r IH]; cbn in *; [discriminate|].
+      destruct (String.eqb (key v) (key x)); cbn; [left; reflexivity | right; apply IH; exact E].
+    - clear E. induction l as [|x r IH]; cbn; [left; reflexivity|].
+      destruct (String.ltb (key v) (key x)); cbn; [left; reflexivity | right; exact IH].
+  Qed.
+End Unique.
+
+Section Unique2.
+  Context {A : Type} (key : A -> string).
+  Lemma in_sinsert_other v l x : In x l -> key x <> key v -> In x (sinsert key v l).
+  Proof.
+    intros Hin Hne. unfold sinsert. destruct (sfind key (key v) l).
+    - induction l as [|y r IH]; cbn in *; [tauto|]. destruct Hin as [->|Hin].
+      + destruct (String.eqb (key v) (key x)) eqn:E; [apply String.eqb_eq in E; congruence | left; reflexivity].
+      + destruct (String.eqb (key v) (key y)); [right; exact Hin | right; apply IH; exact Hin].
+    - induction l as [|y r IH]; cbn in *; [tauto|]. destruct (String.ltb (key v) (key y)); cbn.
+      + right. exact Hin.
+      + destruct Hin as [->|Hin]; [left; reflexivity | right; apply IH; exact Hin].
+  Qed.
+End Unique2.
